@@ -157,7 +157,12 @@ def _decorate_namespace_function(
     # The very same function of a base class can be re-used in the namespace (*e.g.*, ``some_func = Base.some_func``).
     # It already carries the contracts collapsed for the base and is inherited as-is. Collapsing it with the contracts
     # of the bases once more would duplicate the contracts *in the base class*, since the checker is shared.
-    if any(getattr(base, key, None) is func for base in bases):
+    #
+    # The function can be re-used from any ancestor, not only from the class where the bases resolve the name
+    # (*e.g.*, ``some_func = Grandparent.some_func`` although the parent overrides ``some_func``).
+    if any(
+        getattr(klass, key, None) is func for base in bases for klass in base.__mro__
+    ):
         return
 
     # Collect preconditions and postconditions of the function
@@ -271,10 +276,13 @@ def _decorate_namespace_property(
         # the getter was overridden with ``@Base.some_prop.getter``). It already carries the contracts collapsed
         # for the base and is inherited as-is. Collapsing it with the contracts of the bases once more would duplicate
         # the contracts *in the base class*, since the checker is shared.
+        #
+        # The accessor can be re-used from any ancestor, not only from the class where the bases resolve the name.
         if any(
-            isinstance(getattr(base, key, None), property)
-            and func in (getattr(base, key).fget, getattr(base, key).fset, getattr(base, key).fdel)
+            isinstance(getattr(klass, key, None), property)
+            and func in (getattr(klass, key).fget, getattr(klass, key).fset, getattr(klass, key).fdel)
             for base in bases
+            for klass in base.__mro__
         ):
             continue
 
